@@ -578,6 +578,99 @@ pub fn scenarios(t: &Tables, seeds: &[String], seed: u64, n_small: usize, n_mate
             }
         }
     }
+    // the mate in one is a CASTLING move or an EN-PASSANT capture (the check comes from the rook that castled / is uncovered by
+    // the pawn that disappears, not from the piece the move descriptor names), or such a move gives check and something
+    // else mates: rejection sampling over random placements around the fixed skeleton of the special move
+    for kind in 0..2 {
+        count = 0;
+        tries = 0;
+        while count < (n_mate + 1) / 2 && tries < 400000 {
+            tries += 1;
+            let flip = rng.gen_bool(0.5);
+            let col = |c: u32| if flip { c + 6 } else { c };
+            let opp = |c: u32| if flip { c } else { c + 6 };
+            let mir = |s: u32| if flip { 8 * (7 - (s - 1) / 8) + (s - 1) % 8 + 1 } else { s };
+            let mut used = std::collections::HashSet::new();
+            let mut pcs: Vec<(u32, u32)> = Vec::new();
+            let mut put = |pcs: &mut Vec<(u32, u32)>, s: u32, c: u32| -> bool {
+                if !used.insert(s) {
+                    return false;
+                }
+                pcs.push((s, c));
+                true
+            };
+            let (cr, ep);
+            if kind == 0 {
+                // own king e1, one rook on its corner with the right; enemy king on the first three ranks
+                let kingside = rng.gen_bool(0.5);
+                put(&mut pcs, mir(5), col(6));
+                put(&mut pcs, mir(if kingside { 8 } else { 1 }), col(4));
+                cr = match (flip, kingside) { (false, true) => 1, (false, false) => 2, (true, true) => 4, (true, false) => 8 };
+                ep = 0;
+                // the enemy king on the file the rook lands on, far enough not to be on a line with e1 / g1 / c1
+                put(&mut pcs, mir((if kingside { 6 } else { 4 }) + 8 * rng.gen_range(3..=7u32)), opp(6));
+            } else {
+                // own pawn on its fifth rank, enemy pawn just double-stepped next to it
+                let f = rng.gen_range(1..=8u32);
+                let vf = if f == 1 { 2 } else if f == 8 { 7 } else if rng.gen_bool(0.5) { f - 1 } else { f + 1 };
+                put(&mut pcs, mir(32 + f), col(1));
+                put(&mut pcs, mir(32 + vf), opp(1));
+                cr = 0;
+                ep = mir(40 + vf);
+                put(&mut pcs, mir(rng.gen_range(1..=64)), col(6));
+                put(&mut pcs, mir(rng.gen_range(33..=64)), opp(6));
+            }
+            for _ in 0..rng.gen_range(1..=3) {
+                put(&mut pcs, rng.gen_range(1..=64), col([5u32, 4, 3, 3, 2][rng.gen_range(0..5)]));
+            }
+            for _ in 0..rng.gen_range(0..=4) {
+                let c = [1u32, 1, 1, 2, 3, 4][rng.gen_range(0..6)];
+                let sq = rng.gen_range(1..=64u32);
+                if c == 1 && (sq <= 8 || sq >= 57) {
+                    continue;
+                }
+                put(&mut pcs, sq, opp(c));
+            }
+            if pcs.iter().filter(|(_, c)| *c == 6).count() != 1 || pcs.iter().filter(|(_, c)| *c == 12).count() != 1 {
+                continue;
+            }
+            let stm = if flip { 1 } else { 0 };
+            let b = crate::misc::board_from(t, &pcs, stm, cr, ep);
+            let other = if stm == 0 { PieceColor::Black } else { PieceColor::White };
+            if is_check(&b, other) || (kind == 1 && {
+                // the double step must have been possible: origin and target squares of the victim empty
+                let vsq = sq_of(b.pawn_double_move.unwrap());
+                let org = if flip { vsq - 8 } else { vsq + 8 };
+                pcs.iter().any(|(s, _)| *s == vsq || *s == org)
+            }) {
+                continue;
+            }
+            let ms = generate_moves(&b, MoveGenerationMode::AllMoves, &t.hasher);
+            // castling (king moves two files) or en-passant capture (pawn changes file onto an empty square) that gives
+            // check although neither the square the named piece left nor the one it reached is on a line with, or a
+            // knight's jump from, the enemy king: the check comes from the rook / through the vanished pawn's square
+            let ek = if stm == 0 { b.black_king_location } else { b.white_king_location };
+            let aligned = |p: Point| {
+                let (dr, dc) = ((p.0 as i32 - ek.0 as i32).abs(), (p.1 as i32 - ek.1 as i32).abs());
+                dr == 0 || dc == 0 || dr == dc
+            };
+            let special_checks: Vec<&BoardState> = ms.iter().filter(|m| match m.last_move {
+                Some((f, to)) => {
+                    let mover = b.board[f.0][f.1];
+                    let castle = matches!(mover, Square::Full(p) if p.kind == PieceKind::King) && (f.1 as i32 - to.1 as i32).abs() == 2;
+                    let enp = matches!(mover, Square::Full(p) if p.kind == PieceKind::Pawn) && f.1 != to.1 && b.board[to.0][to.1] == Square::Empty;
+                    let (dr, dc) = ((to.0 as i32 - ek.0 as i32).abs(), (to.1 as i32 - ek.1 as i32).abs());
+                    (castle || enp) && m.pawn_promotion.is_none() && !aligned(f) && !aligned(to) && dr * dc != 2 && is_check(m, m.to_move)
+                }
+                None => false,
+            }).collect();
+            if special_checks.is_empty() {
+                continue;
+            }
+            out.push(json!({"tag": "mate", "cmd": format!("position fen {}", to_fen(&b, 0, 1))}));
+            count += 1;
+        }
+    }
     // a move of the mover stalemates the opponent (a stalemate one ply away must never be announced as a mate)
     count = 0;
     tries = 0;
@@ -634,6 +727,23 @@ pub fn scenarios(t: &Tables, seeds: &[String], seed: u64, n_small: usize, n_mate
             };
             out.push(json!({"tag": "fam", "cmd": cmd}));
             count += 1;
+        }
+    }
+    // a special move (castling, en passant, promotion) that GIVES CHECK, one ply before it: at depth 1 the position after it
+    // is a horizon node in check (the check is given by the rook that castled / uncovered by the pawn that disappeared,
+    // not by the piece the move descriptor names), at depth 2 it sits one ply deeper after each reply that allows it
+    count = 0;
+    tries = 0;
+    while count < n_fam / 2 && tries < 200000 {
+        tries += 1;
+        if let Some(b) = crate::rules::family_member(t, &mut rng, tries) {
+            let ms = generate_moves(&b, MoveGenerationMode::AllMoves, &t.hasher);
+            let checking = ms.iter().any(|m| crate::rules::is_special(&b, m) && m.pawn_promotion.is_none() && is_check(m, m.to_move)
+                                         && !generate_moves(m, MoveGenerationMode::AllMoves, &t.hasher).is_empty());
+            if checking {
+                out.push(json!({"tag": "fam", "cmd": format!("position fen {}", to_fen(&b, 0, 1))}));
+                count += 1;
+            }
         }
     }
     // promotion races: pawns one step from promotion on both sides with officers to capture on the last ranks and a
